@@ -275,11 +275,35 @@ def size_rule(ctx, fm):
     num = rf["prec"] + 2
     exp_row = {("kcount",): num, ("kcount", "|delim|"): 1, ("|delim|",): -1, (): rf["lits"]}
     checked = 0
+    from ..core import subst_plain
+
+    def header_cases(val, conds):
+        """[(value, header_on)]: the path condition decides, or a conditional header value is split on self.header"""
+        ifs = [s_ for s_ in subterms(val) if s_[0] == "if" and s_[1] == SF("header")]
+        if any(t == SF("header") for t, pol, _ in conds) or not ifs:
+            return [(val, any(t == SF("header") and pol for t, pol, _ in conds))]
+        out = []
+        for on in (True, False):
+            v = val
+            for it in ifs:
+                v = subst_plain(v, {it: it[2] if on else it[3]})
+            out.append((v, on))
+        return out
+
+    def zero_empty(v):
+        """len(String::new()) == 0"""
+        for s_ in list(subterms(v)):
+            if s_[0] == "call" and s_[1].endswith("::len") and len(s_) == 3 and s_[2][0] == "call" and s_[2][1].endswith("String::new"):
+                v = subst_plain(v, {s_: L(0)})
+        return v
+    cases = []
     for sp in paths:
         val = sp.state.get(size_arg) if size_arg[0] == "local" else None
         if val is None or sp.exit[0] == "diverge":
             continue
-        hdr_on = any(t == SF("header") and pol for t, pol, _ in sp.conds)
+        cases.extend(header_cases(val, sp.conds))
+    for val, hdr_on in cases:
+        val = zero_empty(val)
         pp = poly(val, ctx.prog.consts, sym)
         # expected: records * row (+ len(HEADER) when the header is on)
         exp = {}
